@@ -501,7 +501,7 @@ func TestC03PortSpace(t *testing.T) {
 
 func runPortSpace(t *rapid.T, c *ev.Case) {
 	{
-		n1 := rapid.SampledFrom([]int{1, 10, 5000, 16383, 16384, 16390}).Draw(t, "phase1")
+		n1 := rapid.SampledFrom([]int{1, 10, 10, 200, 5000, 16383, 16384, 16390}).Draw(t, "phase1")
 		expire := rapid.Bool().Draw(t, "expire")
 		n2 := rapid.SampledFrom([]int{0, 20, 400, 16390}).Draw(t, "phase2")
 		if n1+n2 < 16380 {
@@ -517,11 +517,18 @@ func runPortSpace(t *rapid.T, c *ev.Case) {
 		clock := vclock.New(time.Date(2031, 5, 5, 0, 0, 0, 0, time.UTC))
 		vnet.VerifSetHooks(&vnet.VerifHooks{Now: clock.Now})
 		defer vnet.VerifSetHooks(nil)
-		nat, err := vnet.VerifNewNAT(natType(2, 2, life), routerIPs[:1], nil)
+		// every remote has an IP of its own, so address-dependent mapping opens one mapping per
+		// remote as well; the filtering behaviour is drawn independently of the mapping behaviour
+		mb := Dep(rapid.IntRange(1, 2).Draw(t, "psMapping"))
+		fb := Dep(rapid.IntRange(0, 2).Draw(t, "psFiltering"))
+		if mb != fb {
+			c.Label("port-space/mapping!=filtering")
+		}
+		nat, err := vnet.VerifNewNAT(natType(mb, fb, life), routerIPs[:1], nil)
 		if err != nil {
 			t.Fatalf("newNAT: %v", err)
 		}
-		w := &world{t: t, c: c, clock: clock, nat: nat, m: NewModel(2, 2, life), nIPs: 1, focus: "C02"}
+		w := &world{t: t, c: c, clock: clock, nat: nat, m: NewModel(mb, fb, life), nIPs: 1, focus: "C02"}
 		c.Set("phase1", n1)
 		c.Set("expire", expire)
 		c.Set("phase2", n2)
@@ -562,6 +569,15 @@ func runPortSpace(t *rapid.T, c *ev.Case) {
 		// every mapping the model knows to be live must still admit its remote, to its owner
 		probes := 0
 		for i := n1 + n2 - 1; i >= 0 && probes < 300; i -= 1 + (n1+n2)/300 {
+			mp, live := w.m.Lookup(in, rem(i), clock.Offset())
+			if mp != nil && live == 1 {
+				w.inbound(rem(i), mp.Ext(), "learned")
+				probes++
+			}
+		}
+		// the youngest mappings hold the ports the wrapped search has taken over from the
+		// oldest ones: all of them, not a sample
+		for i := n1 + n2 - 1; i >= 0 && i >= n1+n2-80; i-- {
 			mp, live := w.m.Lookup(in, rem(i), clock.Offset())
 			if mp != nil && live == 1 {
 				w.inbound(rem(i), mp.Ext(), "learned")
